@@ -69,12 +69,74 @@ Verdict(e) ==
     ELSE IF out # ExpectedOut(AA, GG, inp, e.head, e.wrg, e.prefix, stem, e.in_rgids) THEN "Exact"
     ELSE "ok"
 
+---------------------------------------------------------------------------------------------------
+(* mode "split": split_bam_by_cluster.py main() run in-process.                                                          *)
+(* {"mode":"split","recs":[{"id","sm" ("" = no tag),"rg","kind","dup","mapq","ci","pos"}..],"in_obs":[{"id","sm","rg","dg",     *)
+(*  "dup","mapq","tid","pos"}..] (the input file read back),"in_sqn":[[name,length]..],"in_rgids",                         *)
+(*  "rows":[{"s","c":[characters of the cluster name]}..],"nocol","chr" (--add_chr_prefix),"mapq" (-mapq),"bname","tagid",    *)
+(*  "raised","files":[{"name","ok","rgids","sqn","recs":[{"id","sm","rg","dg","dup","mapq","tid","pos"}..]}..],"other":[..]}  *)
+SRows(e) == [i \in DOMAIN e.rows |-> [s |-> e.rows[i].s, c |-> Str(e.rows[i].c)]]
+SIn(e, filter) == SplitInp([i \in DOMAIN e.recs |-> [id |-> e.recs[i].id, sm |-> e.recs[i].sm, rg |-> e.recs[i].rg, dg |-> e.in_obs[i].dg,
+                                                   dup |-> e.in_obs[i].dup, lowq |-> e.in_obs[i].mapq < e.mapq,
+                                                   tid |-> e.in_obs[i].tid, pos |-> e.in_obs[i].pos]], filter)
+SOut(e, filter) == [f \in { e.files[i].name : i \in DOMAIN e.files } |->
+                      LET x == e.files[FileIdx(e, f)]
+                      IN [rgids |-> x.rgids,
+                          recs |-> [k \in DOMAIN x.recs |->
+                                      [id |-> x.recs[k].id, dg |-> x.recs[k].dg, rg |-> x.recs[k].rg,
+                                       sm |-> SplitKey([sm |-> x.recs[k].sm, dup |-> x.recs[k].dup, lowq |-> x.recs[k].mapq < e.mapq], filter)]]]]
+SStemE(e) == e.bname \o "."
+SplitFaithful(e) == /\ Len(e.in_obs) = Len(e.recs)
+                    /\ \A i \in DOMAIN e.recs : /\ e.in_obs[i].id = e.recs[i].id /\ e.in_obs[i].sm = e.recs[i].sm /\ e.in_obs[i].rg = e.recs[i].rg
+                                                /\ e.in_obs[i].dup = e.recs[i].dup /\ e.in_obs[i].tid = e.recs[i].ci
+                                                /\ (e.recs[i].ci >= 0 => e.in_obs[i].pos = e.recs[i].pos)
+                    /\ \A i, j \in DOMAIN e.recs : e.recs[i].id = e.recs[j].id => i = j
+ClustersClean(e) == \A i \in DOMAIN e.rows : e.rows[i].c # <<>> /\ CleanChars(e.rows[i].c) = e.rows[i].c
+SplitPreNote(e) == IF ~SplitFaithful(e) THEN "input_file_not_as_described"
+                   ELSE IF ~ClustersClean(e) THEN "cluster_name_is_not_a_clean_file_name"
+                   ELSE ""
+ExpSqn(e) == [i \in DOMAIN e.in_sqn |-> <<(IF e.chr THEN "chr" ELSE "") \o e.in_sqn[i][1], e.in_sqn[i][2]>>]
+SplitVerdictR(e, filter) ==
+    LET rows == SRows(e)  AA == SplitRel(rows)  GG == SplitGroups(rows)  inp == SIn(e, filter)  out == SOut(e, filter)  stem == SStemE(e) IN
+    IF \E i \in DOMAIN e.files : ~e.files[i].ok THEN "Readable"
+    ELSE IF SplitDup(rows) THEN (IF e.raised # "" /\ e.files = <<>> THEN "ok"
+                                 ELSE IF e.raised = "" THEN "Refused|not_raised" ELSE "Refused|files_created")
+    ELSE IF e.raised # "" THEN "NoCrash|" \o e.raised
+    ELSE IF ~P_Files(GG, stem, out)
+         THEN "Files|" \o (IF { FileName(stem, g) : g \in GG } \subseteq DOMAIN out THEN "extra_bam_file" ELSE "cluster_file_missing")
+    ELSE IF ~P_NoStrangers(inp, out) THEN "NoStrangers"
+    ELSE IF ~P_Unselected(AA, inp, out) THEN "Unselected"
+    ELSE IF ~P_ExactlyOnce(AA, inp, -1, stem, out) THEN "ExactlyOnce"
+    ELSE IF ~P_Sorted(inp, out) THEN "Sorted"
+    ELSE IF ~P_Content(AA, inp, FALSE, "", out) THEN "Content"
+    ELSE IF \E i \in DOMAIN e.files : e.files[i].rgids # e.in_rgids THEN "HeaderRG"
+    ELSE IF \E i \in DOMAIN e.files : e.files[i].sqn # ExpSqn(e) THEN "HeaderSQ|" \o (IF e.chr THEN "add_chr_prefix" ELSE "plain")
+    ELSE IF \E i \in DOMAIN e.files : (e.files[i].name \o ".bai") \notin SeqToSet(e.other) THEN "Indexed"
+    ELSE "ok"
+(* -mapq is a required option without help text that the tool parses and never uses.  Both readings are admitted: the   *)
+(* option has no effect (as coded) or records below the threshold are left out - the same reading for the whole run.  *)
+SplitVerdict(e) == LET v0 == SplitVerdictR(e, FALSE) IN
+                   IF v0 = "ok" THEN "ok" ELSE IF SplitVerdictR(e, TRUE) = "ok" THEN "ok" ELSE v0
+MapqIgnoredNote(e) == /\ SplitPreNote(e) = "" /\ e.raised = "" /\ SplitVerdictR(e, FALSE) = "ok"
+                      /\ \E i \in DOMAIN e.files : \E k \in DOMAIN e.files[i].recs : e.files[i].recs[k].mapq < e.mapq
+MissingNote(e) == SplitPreNote(e) = "" /\ e.raised = "" /\ (\E i \in DOMAIN e.rows : e.rows[i].s = "Missing")
+                  /\ \E i \in DOMAIN e.files : \E k \in DOMAIN e.files[i].recs : e.files[i].recs[k].sm = ""
+DupNote(e) == SplitPreNote(e) = "" /\ e.raised = "" /\ SplitVerdict(e) = "ok"
+              /\ \E i \in DOMAIN e.recs : e.recs[i].dup /\ e.recs[i].sm # "" /\ GroupsOf(SplitRel(SRows(e)), e.recs[i].sm) # {}
+
+TNextSplit(e) == /\ Judge(l, IF SplitPreNote(e) # "" THEN "ok" ELSE SplitVerdict(e))
+                 /\ (IF SplitPreNote(e) # "" THEN Note(l, e.tid, SplitPreNote(e)) ELSE TRUE)
+                 /\ (IF MapqIgnoredNote(e) THEN Note(l, e.tid, "split_mapq_option_has_no_effect") ELSE TRUE)
+                 /\ (IF MissingNote(e) THEN Note(l, e.tid, "split_records_without_tag_routed_as_sample_Missing") ELSE TRUE)
+                 /\ (IF DupNote(e) THEN Note(l, e.tid, "split_duplicate_flagged_records_of_listed_samples_dropped") ELSE TRUE)
+
 TInit == l = 1
+TNextRoute(e) == /\ Judge(l, Verdict(e))
+                 /\ (IF PreNote(e) # "" THEN Note(l, e.tid, PreNote(e)) ELSE TRUE)
+                 /\ (IF PreNote(e) = "" /\ Conflict(Aof(e)) /\ e.files # <<>>
+                     THEN Note(l, e.tid, "refused_after_the_output_files_were_created") ELSE TRUE)
 TNext == /\ l <= Len(Log)
-         /\ Judge(l, Verdict(Log[l]))
-         /\ (IF PreNote(Log[l]) # "" THEN Note(l, Log[l].tid, PreNote(Log[l])) ELSE TRUE)
-         /\ (IF PreNote(Log[l]) = "" /\ Conflict(Aof(Log[l])) /\ Log[l].files # <<>>
-             THEN Note(l, Log[l].tid, "refused_after_the_output_files_were_created") ELSE TRUE)
+         /\ (IF Log[l].mode = "split" THEN TNextSplit(Log[l]) ELSE TNextRoute(Log[l]))
          /\ l' = l + 1
 TAccepted == TLCGet("stats").diameter - 1 = Len(Log)
 =====================================================================================================
